@@ -303,6 +303,27 @@ def e2e(rep, tier, seed):
                 for w in ("100", "40"):
                     cases.append({"text": text, "config": pool.merged(p["header"], [["max_width", w]]), "again": False, "lex": False})
                     meta.append((p["id"], kind + "_inner", isp, w, marked))
+    # synthetic: every item form, skip-marked, at top level, inside an inline module and as an item statement of a
+    # function body (out-of-line `mod d;`, `use`, `extern crate` included)
+    from . import c01, c16
+    forms = ["mod   d ;", "use   a :: { c,b } ;", "extern   crate   e ;", "pub(crate)   mod   m ;"] + [x for x in c01.SYN_ITEMS + c16.SWEEP_ITEMS if "\n" not in x and "mod inline" not in x and "#![" not in x
+                                                                                     and not any(m in x for m in ("fn dyn_star", "static X:", "fn abi()"))]       # single items only
+    k = 0
+    for fi, form in enumerate(forms):
+        for ctx in ("top", "mod", "fn"):
+            sp = SPELLINGS[(fi + len(ctx)) % len(SPELLINGS)]
+            marked = sp + "\n" + form
+            if ctx == "top":
+                text = "fn  before( ){}\n" + marked + "\nfn  after( ){}\n"
+            elif ctx == "mod":
+                text = "mod outer {\nfn  before( ){}\n" + marked + "\nfn  after( ){}\n}\n"
+            else:
+                text = "fn host() {\nlet  a=1;\n" + marked + "\nlet  b=2;\n}\n"
+            if tier != "thorough" and (fi + seed) % 2 and fi >= 4:
+                continue
+            for w in ("100", "40"):
+                cases.append({"text": text, "config": [["max_width", w], ["edition", "2024"]], "again": False, "lex": False})
+                meta.append(("synth/f%d.%s" % (fi, ctx), "item_" + ctx, sp, w, marked))
     res = common.run_vh_pool("pool", cases, per_case_timeout=15)
     n = found = 0
     per_kind = {}
@@ -318,7 +339,7 @@ def e2e(rep, tier, seed):
                 found += 1
     rep.coverage["e2e_skip_injections_judged"] = n
     rep.coverage["e2e_per_kind"] = per_kind
-    rep.coverage["e2e_rule"] = "pool source programs (thorough: all; quick: the 1/%d selected by the seed) x up to 2 nodes of each kind %s x 4 spellings (rotating) x max_width {100, 40}: the node's source bytes must occur verbatim in the output" % (MOD, KINDS)
+    rep.coverage["e2e_rule"] = "pool source programs (thorough: all; quick: the 1/%d selected by the seed) x up to 2 nodes of each kind %s x 4 spellings (rotating) x max_width {100, 40}: the node's source bytes must occur verbatim in the output; plus ~45 item forms (out-of-line mod / use / extern crate declarations included), skip-marked, at top level, inside an inline module and as an item statement of a function body" % (MOD, KINDS)
     found += whole_file(rep)
     return found
 
